@@ -120,38 +120,38 @@ ImplGTBatch(n, x) ==
 BatchRet(n, x) == IF last[n] + 1 < x + 1 THEN NoSeq ELSE x + 1      \* returns at once iff nothing to release
 GhostGTBatch(n, x, ret) == Ghost(n, ret, x, <<>>, NoSeq)
 
-(* target above the current batch: release the batch, read the counter; mutex stays held *)
+(* target above the current batch: release the batch, read the counter; mutex stays held.  Local computation up
+   to the next storage operation belongs to this action: when the counter read is already >= x+1 the code goes
+   on into _nextSequence/_reserveSequenceBatch, which grows the batch BEFORE it increments. *)
 BatchNotice(n) == IF max[n] > last[n] THEN <<<<last[n] + 1, max[n], 2>>>> ELSE <<>>
 ImplGTBegin(n, x) ==
   /\ CanCall(n) /\ x + 1 > max[n]
   /\ unusedDocs' = unusedDocs \cup {BatchNotice(n)[i] : i \in 1..Len(BatchNotice(n))}
   /\ last' = [last EXCEPT ![n] = IF max[n] > last[n] THEN max[n] ELSE @]
   /\ pc' = [pc EXCEPT ![n] = [st |-> "got", x |-> x, sync |-> counter]]
-  /\ UNCHANGED <<counter, max, batch, reserved, alive, pend>>
+  /\ batch' = [batch EXCEPT ![n] = IF counter >= x + 1 THEN NextBatch(n) ELSE @]
+  /\ UNCHANGED <<counter, max, reserved, alive, pend>>
 GhostGTBegin(n, rel) == Ghost(n, NoSeq, NoFloor, rel, NoSeq)
 
-(* the increment after the Get.  sync >= x+1: plain _nextSequence.  Otherwise catch-up: reserve
-   (x - sync) + batch, keep the top `batch` numbers, hand out the first of them, release the rest later. *)
+(* the increment after the Get.  sync >= x+1: the increment of _reserveSequenceBatch (batch already grown).
+   Otherwise catch-up: reserve (x - sync) + batch, keep the top `batch` numbers, hand out the first of them,
+   release the rest after the unlock. *)
 CatchUp(n)      == pc[n].sync < pc[n].x + 1
 CatchRel(n)     == pc[n].x - pc[n].sync
-CatchAlloc(n)   == counter + CatchRel(n) + batch[n]
-CatchPend(n)    == [from |-> CatchAlloc(n) - batch[n] - CatchRel(n) + 1, to |-> CatchAlloc(n) - batch[n],
-                    ret |-> CatchAlloc(n) - batch[n] + 1, x |-> pc[n].x]
-FinishIncr(n)   == IF CatchUp(n) THEN CatchRel(n) + batch[n] ELSE NextIncr(n)
+FinishIncr(n)   == IF CatchUp(n) THEN CatchRel(n) + batch[n] ELSE batch[n]
+FinishAlloc(n)  == counter + FinishIncr(n)
+CatchPend(n)    == [from |-> FinishAlloc(n) - batch[n] - CatchRel(n) + 1, to |-> FinishAlloc(n) - batch[n],
+                    ret |-> FinishAlloc(n) - batch[n] + 1, x |-> pc[n].x]
 ImplGTFinish(n) ==
   /\ pc[n].st = "got"
   /\ pc' = [pc EXCEPT ![n] = Idle0]
-  /\ IF CatchUp(n)
-     THEN /\ counter' = CatchAlloc(n)
-          /\ max' = [max EXCEPT ![n] = CatchAlloc(n)]
-          /\ last' = [last EXCEPT ![n] = CatchAlloc(n) - batch[n] + 1]
-          /\ reserved' = [reserved EXCEPT ![n] = TRUE]
-          /\ pend' = [pend EXCEPT ![n] = IF CatchRel(n) > 0 THEN @ \cup {CatchPend(n)} ELSE @]
-          /\ UNCHANGED batch
-     ELSE NextBody(n) /\ UNCHANGED pend
-  /\ UNCHANGED <<unusedDocs, alive>>
-FinishRet(n) == IF CatchUp(n) THEN (IF CatchRel(n) > 0 THEN NoSeq ELSE CatchAlloc(n) - batch[n] + 1)
-                ELSE last'[n]
+  /\ counter' = FinishAlloc(n)
+  /\ max' = [max EXCEPT ![n] = FinishAlloc(n)]
+  /\ last' = [last EXCEPT ![n] = FinishAlloc(n) - batch[n] + 1]
+  /\ reserved' = [reserved EXCEPT ![n] = TRUE]
+  /\ pend' = [pend EXCEPT ![n] = IF CatchUp(n) /\ CatchRel(n) > 0 THEN @ \cup {CatchPend(n)} ELSE @]
+  /\ UNCHANGED <<batch, unusedDocs, alive>>
+FinishRet(n) == IF CatchUp(n) /\ CatchRel(n) > 0 THEN NoSeq ELSE FinishAlloc(n) - batch[n] + 1
 GhostGTFinish(n, x, ret) == Ghost(n, ret, x, <<>>, NoSeq)
 
 (* the release after the unlock, then the call returns p.ret *)
@@ -191,7 +191,7 @@ InFlight == \E n \in Allocs : pc[n] # Idle0 \/ pend[n] # {}
 More   == Len(hist) < MaxSteps                      \* behaviour length bound
 Start  == More /\ (Fine \/ ~InFlight)               \* a new API call may begin (call granularity unless Fine)
 (* a GT call that would need more counter than the bound allows is never started (it could not finish) *)
-BeginFits(n, x) == x + batch[n] <= MaxCounter /\ counter + NextBatch(n) <= MaxCounter
+BeginFits(n, x) == x + NextBatch(n) <= MaxCounter /\ counter + NextBatch(n) <= MaxCounter
 
 Next(n)        == Start /\ counter + NextIncr(n) <= MaxCounter
                   /\ ImplNext(n) /\ GhostNext(n, last'[n]) /\ Step("Next", n, 0)
